@@ -13,7 +13,7 @@ from vlib.workmeter import METER, WorkBudgetExceeded
 ID = "C04"
 LEVEL = "exploration"
 RULE = ("Hypothesis draws rooted Pages/Page trees (depth 1-6, fan-out 0-5, <= 40 leaves), each inheritable attribute "
-        "(Resources, MediaBox, CropBox, Rotate) independently absent / direct / indirect at every node (boxes also "
+        "(Resources, MediaBox, CropBox, Rotate) independently absent / null-valued (= absent) / direct / indirect at every node (boxes also "
         "with indirect elements), MediaBox with non-zero dyadic origin, Rotate = 90k for k in [-9,9], cyclic variants "
         "(Kids containing an ancestor, the node itself, the same child twice), one glyph per leaf at a drawn point, and "
         "a selection (page_numbers as set/list/tuple/empty/None over [0,n+3), maxpages in [0,n+2]).  Oracle: independent "
@@ -97,6 +97,9 @@ class Builder:
         for name in INH:
             if name in node["attrs"]:
                 d[name.encode()] = self.attr_value(name, node["attrs"][name], path)
+            elif name in node.get("nulls", ()):
+                # a null-valued entry is equivalent to omitting the entry (ISO 32000-1 7.3.9): the value is inherited
+                d[name.encode()] = None
         if node["kind"] == "pages":
             kids = []
             for i, k in enumerate(node["kids"]):
@@ -344,12 +347,18 @@ def attrs(draw, p=3):
     return a
 
 
+def nulls(draw, a):
+    return [name for name in INH if name not in a and draw(st.integers(0, 5)) == 0]
+
+
 @st.composite
 def tree(draw, depth, budget, cyc):
     if depth >= draw(st.integers(1, 6)) or budget[0] <= 0:
         budget[0] -= 1
-        return {"kind": "page", "attrs": draw(attrs()), "pt": (Fr(1), Fr(1)), "text": "P"}
-    node = {"kind": "pages", "attrs": draw(attrs()), "kids": []}
+        a = draw(attrs())
+        return {"kind": "page", "attrs": a, "nulls": nulls(draw, a), "pt": (Fr(1), Fr(1)), "text": "P"}
+    a = draw(attrs())
+    node = {"kind": "pages", "attrs": a, "nulls": nulls(draw, a), "kids": []}
     for _ in range(draw(st.integers(0, 5))):
         if budget[0] <= 0:
             break
